@@ -6,6 +6,7 @@ CONSTANTS
   Keys = {"x", "y"}
   Vals = {"1", "2", "3", "4", "5", "6", "7", "8"}
   MaxLoops = 2
+  Construct = TRUE
   Concurrent = FALSE
   Depth = 5
   MaxCalls = 3
